@@ -46,7 +46,7 @@ func TestC10Escape(t *testing.T) {
 func TestC10Split(t *testing.T) {
 	rapidCheck(t, "C10Split", func(rt *rapid.T) interface{} {
 		b := genBytesAlpha(rt, "in", 24)
-		s := &SplitSpec{In: b, Unsafe: rapid.Bool().Draw(rt, "unsafe")}
+		s := &SplitSpec{In: b, Unsafe: rapid.Bool().Draw(rt, "unsafe"), Look: rapid.IntRange(0, 2).Draw(rt, "look") == 0}
 		nc := rapid.IntRange(0, 5).Draw(rt, "ncuts")
 		if rapid.IntRange(0, 14).Draw(rt, "bulksplit") == 7 {
 			// a small head (possibly ending inside a rune or a marker), one
